@@ -163,10 +163,10 @@ BAD_LOADED = ["eval_size", "batch_size", "iweights_size", "dweights_size", "diff
 
 
 def history(rnd, label, fam=None, steps=6, with_bad=False, with_copy=False, with_rt=False, with_construct=True,
-            with_transform=False, limits=None):
+            with_transform=False, limits=None, d=None):
     """one random operation history on one (or two) grid objects"""
     L = ["SCEN " + label]
-    line, info = make_line(rnd, fam, limits=limits)
+    line, info = make_line(rnd, fam, limits=limits, d=d)
     L.append(line)
     epoch = 0
     loaded = False
@@ -348,7 +348,7 @@ def req_name(reqtext):
     return reqtext.strip('"')
 
 
-def run_grid(ctx, scen_sets, obs_mask, prop, chunk=60, timeout=900):
+def run_grid(ctx, scen_sets, obs_mask, prop, chunk=30, timeout=240):
     """scen_sets: list of (label, [scenario text]).  Executes on the real library, validates with TLC,
     reports rejections that concern `prop`; others are counted as foreign (and examined by their own check)."""
     lib = vf.build_lib("hooks")
